@@ -20,13 +20,14 @@ func init() {
 	property("C13",
 		"Static conformance of constant substitution: (a) every token literal that is accumulated into an argument, operand, comparison value, case value, table-entry field, mart item or constant value passes through tryReplaceWithConstant (the only exceptions are literal parentheses); (b) names (identifiers, labels, map script names, movement steps) and text are never passed through it; (c) a constant is stored only after the duplicate check, its value is scanned up to the next top-level keyword; (d) the helper is a pure lookup that returns its argument when the name is not a constant.",
 		[]string{"that textual and token-wise replacement coincide for multi-token values is not decided"},
-		"C13.a", "C13.b", "C13.c", "C13.d", "C10.a", "C14.c", "C20.c")
+		"C13.a", "C13.b", "C13.c", "C13.d", "C10.a", "C14.c", "C20.c", "C13.e")
 	property("C14",
 		"Static conformance of list handling: (a) a movement multiplier is accepted exactly in [1, 9999], must be an INT, and expands to exactly that many copies; (b) the movement emitter writes the terminator exactly once on every path and nothing after it; (c) the mart emitter writes '.align 2' first, stops at the first item equal to ITEM_NONE — tested on the very value it would write — and writes the terminator once, unconditionally, after the loop; items and their tokens are parallel; (d) list parsers append each identifier once and advance on every iteration.",
 		[]string{"go/ssa lowering is faithful to the source"},
 		"C14.a", "C14.b", "C14.c", "C14.d", "C06.b", "C12.f")
 
 	register(&Rule{ID: "C12.f", Doc: "every parsed poryswitch case is recorded under its own name, whatever its content", Floor: 5, Run: c12f})
+	register(&Rule{ID: "C13.e", Doc: "no decision depends on how many tokens a substituted value was written with", Floor: 1, Run: c13e})
 	register(&Rule{ID: "C12.a", Doc: "selection protocol: value key if present else '_', comma-ok presence, error under environment errors", Floor: 8, Run: c12a})
 	register(&Rule{ID: "C12.b", Doc: "poryswitch header: value from compileSwitches[ident]; environment errors only in normal mode", Floor: 3, Run: c12b})
 	register(&Rule{ID: "C12.c", Doc: "case parsing writes only token window, scope stacks, font cache", Floor: 3, Run: c12c})
@@ -919,4 +920,96 @@ func c12f(c *Ctx) {
 			}
 		}
 	}
+}
+
+// c13e: a constant may stand for several tokens, so the number of *source* tokens of a value
+// differs between a program and the same program with its constants written out. Where
+// substituted values are accumulated in a list, the only property of the list's length that
+// is the same in both programs is emptiness (a constant never expands to nothing:
+// parseConstant rejects an empty value). Any other test on the length (`len(parts) > 1`)
+// makes the output depend on whether a constant was used.
+func c13e(c *Ctx) {
+	try := c.Fn("parser.Parser.tryReplaceWithConstant")
+	if try == nil {
+		return
+	}
+	nAcc, nTests := 0, 0
+	for _, fn := range c.W.FuncsOf("parser") {
+		if isTestFunc(c.W, fn) || fn == try {
+			continue
+		}
+		// accumulators: []string values that receive a substituted element
+		acc := map[ssa.Value]bool{}
+		for _, ci := range callsIn(fn) {
+			call, ok := ci.(*ssa.Call)
+			if !ok || calleeName(call) != "builtin:append" {
+				continue
+			}
+			sl, ok := call.Type().Underlying().(*types.Slice)
+			if !ok || !types.Identical(sl.Elem(), types.Typ[types.String]) {
+				continue
+			}
+			for _, e := range appendElems(call) {
+				if ec, ok := e.(*ssa.Call); ok && callee(ec) == try {
+					acc[call] = true
+					var leaves []ssa.Value
+					phiLeaves(call.Call.Args[0], map[ssa.Value]bool{}, &leaves)
+					for _, lf := range leaves {
+						acc[lf] = true
+					}
+					acc[call.Call.Args[0]] = true
+				}
+			}
+		}
+		if len(acc) == 0 {
+			continue
+		}
+		nAcc++
+		derives := func(v ssa.Value) bool {
+			var leaves []ssa.Value
+			phiLeaves(v, map[ssa.Value]bool{}, &leaves)
+			for _, lf := range leaves {
+				if acc[lf] {
+					return true
+				}
+				if ap, ok := lf.(*ssa.Call); ok && calleeName(ap) == "builtin:append" && acc[ap.Call.Args[0]] {
+					return true
+				}
+			}
+			return acc[v]
+		}
+		instrs(fn, func(in ssa.Instruction) {
+			bo, ok := in.(*ssa.BinOp)
+			if !ok {
+				return
+			}
+			var lenCall *ssa.Call
+			var k int64
+			var kOK, lenLeft bool
+			if lc, ok := bo.X.(*ssa.Call); ok && calleeName(lc) == "builtin:len" {
+				lenCall, lenLeft = lc, true
+				k, kOK = intConst(bo.Y)
+			} else if lc, ok := bo.Y.(*ssa.Call); ok && calleeName(lc) == "builtin:len" {
+				lenCall = lc
+				k, kOK = intConst(bo.X)
+			}
+			if lenCall == nil || !derives(lenCall.Call.Args[0]) {
+				return
+			}
+			nTests++
+			emptiness := false
+			if kOK && k == 0 {
+				switch bo.Op {
+				case token.EQL, token.NEQ:
+					emptiness = true
+				case token.GTR:
+					emptiness = lenLeft // len > 0
+				case token.LSS:
+					emptiness = !lenLeft // 0 < len
+				}
+			}
+			c.Check(emptiness, fmt.Sprintf("%s/token-count-test[%s]", c.W.FuncKey(fn), pretty(c.term(fn, bo))), c.W.Pos(bo.Pos()), "only emptiness of the accumulated value is tested", "the number of tokens accumulated from constant-substituted values is compared with "+fmt.Sprint(k)+" ("+bo.Op.String()+"): a constant that stands for several tokens is counted as one, so the program with the constant and the program with its value written out are compiled differently")
+		})
+	}
+	c.Check(nAcc >= 2, "accumulators", "-", fmt.Sprintf("%d functions accumulate substituted tokens in a list; %d tests on such a list's length", nAcc, nTests), "no token accumulators found")
 }
